@@ -40,7 +40,7 @@ func checkC05(c *Ctx) {
 	// necessary condition for the (otherwise undecided) Control Change value byte: positions within the reported range normalise into [-1,1]
 	ruleNormalisation(c, dv, "R5.6")
 	// and the deadzone rescale divides (v -/+ dz) by (1 - dz) of the SAME dz: the shaped value stays within [-1,1]
-	c.importRules(rescaleRules, []string{"R6.10"}, "R5.7")
+	c.importRules(rescaleRules, []string{"R6.10", "R6.11"}, "R5.7") // and the centre shift 2v-1 is applied to unsigned positions only
 	c.MinCount("R5.1", 3)
 	c.MinCount("R5.2", 12)
 	c.MinCount("R5.3", 12)
